@@ -19,6 +19,7 @@ type Faulty struct {
 	commitApply bool
 	nextErr     error
 	getErr      error
+	iterErr     error
 	lastApplied bool
 }
 
@@ -39,6 +40,9 @@ func (f *Faulty) ArmCommit(err error, apply bool) {
 // ArmNext makes the next Iter.Next fail with err; the element is not consumed.
 func (f *Faulty) ArmNext(err error) { f.mu.Lock(); f.nextErr = err; f.mu.Unlock() }
 
+// ArmIterOpen makes the next Iter (the opening of an iterator) fail with err.
+func (f *Faulty) ArmIterOpen(err error) { f.mu.Lock(); f.iterErr = err; f.mu.Unlock() }
+
 // ArmGet makes the next Get fail with err.
 func (f *Faulty) ArmGet(err error) { f.mu.Lock(); f.getErr = err; f.mu.Unlock() }
 
@@ -57,7 +61,7 @@ func (f *Faulty) Get(ctx context.Context, key []byte) ([]byte, error) {
 // Disarm drops what is still armed (the call above did not get here).
 func (f *Faulty) Disarm() {
 	f.mu.Lock()
-	f.delErr, f.commitErr, f.nextErr, f.getErr = nil, nil, nil, nil
+	f.delErr, f.commitErr, f.nextErr, f.getErr, f.iterErr = nil, nil, nil, nil, nil
 	f.mu.Unlock()
 }
 
@@ -102,6 +106,13 @@ func unwrapFaultyIter(it storage.Iter) storage.Iter {
 
 // Iter implements storage.KvStorage.
 func (f *Faulty) Iter(ctx context.Context, start []byte, end []byte, timestamp uint64, limit uint64) (storage.Iter, error) {
+	f.mu.Lock()
+	e := f.iterErr
+	f.iterErr = nil
+	f.mu.Unlock()
+	if e != nil {
+		return nil, e
+	}
 	it, err := f.KvStorage.Iter(ctx, start, end, timestamp, limit)
 	if err != nil {
 		return nil, err
